@@ -498,9 +498,9 @@ func runLemma(ld *loaded, l *Lemma, tier string, seed int, knownOpen map[string]
 		}
 		return &Machine{prog: ld.prog, fset: ld.prog.Fset, solver: solver, opts: opts, initOK: initOK, modPath: modPath}, nil
 	}
-	budget := 240 * time.Second
+	budget := 900 * time.Second
 	if tier == "thorough" {
-		budget = 1500 * time.Second
+		budget = 3600 * time.Second
 	}
 	if l.TimeoutS > 0 {
 		budget = time.Duration(l.TimeoutS) * time.Second
